@@ -371,6 +371,7 @@ pub struct PanicInfo {
 thread_local! {
     static LAST_PANIC: RefCell<Option<PanicInfo>> = RefCell::new(None);
     static WANT_BT: RefCell<bool> = RefCell::new(false);
+    static IN_GUARD: RefCell<bool> = RefCell::new(false);
 }
 
 pub fn install_panic_hook() {
@@ -383,6 +384,10 @@ pub fn install_panic_hook() {
         } else {
             "<non-string panic payload>".to_string()
         };
+        if !IN_GUARD.with(|g| *g.borrow()) {
+            // a panic outside guarded() is a bug of the harness itself: make it visible
+            eprintln!("HARNESS PANIC at {}:{}: {}\n{}", file, line, message, std::backtrace::Backtrace::force_capture());
+        }
         let want = WANT_BT.with(|w| *w.borrow());
         let func = if want { nearest_swiftness_frame() } else { String::new() };
         LAST_PANIC.with(|p| *p.borrow_mut() = Some(PanicInfo { file, line, message, func }));
@@ -410,7 +415,9 @@ fn nearest_swiftness_frame() -> String {
 pub fn guarded<R>(bt: bool, f: impl FnOnce() -> R) -> Result<R, PanicInfo> {
     WANT_BT.with(|w| *w.borrow_mut() = bt);
     LAST_PANIC.with(|p| *p.borrow_mut() = None);
+    let outer = IN_GUARD.with(|g| std::mem::replace(&mut *g.borrow_mut(), true));
     let r = catch_unwind(AssertUnwindSafe(f));
+    IN_GUARD.with(|g| *g.borrow_mut() = outer);
     WANT_BT.with(|w| *w.borrow_mut() = false);
     match r {
         Ok(v) => Ok(v),
@@ -673,6 +680,10 @@ pub fn run_children(ctx: &Ctx, label: &str, n_shards: usize, limits: Limits, rep
                 // the shard died: the last started, unfinished case is the reproducer
                 let stderr = String::from_utf8_lossy(&out.stderr);
                 use std::os::unix::process::ExitStatusExt;
+                if stderr.contains("HARNESS PANIC") {
+                    r.broken.push(format!("harness bug in shard {}: {}", shard, stderr.chars().take(400).collect::<String>()));
+                    break;
+                }
                 let how = if out.status.code() == Some(97) {
                     "cpu_time_limit".to_string()
                 } else if stderr.contains("memory allocation of") {
